@@ -36,6 +36,9 @@ _spec2.loader.exec_module(N)
 _spec3 = importlib.util.spec_from_file_location("c13_attrs", str(VERIF / "tools" / "gen" / "c13_attrs.py"))
 _tr = importlib.util.module_from_spec(_spec3)
 _spec3.loader.exec_module(_tr)
+_spec4 = importlib.util.spec_from_file_location("c13_doc", str(VERIF / "tools" / "gen" / "c13_doc.py"))
+_trd = importlib.util.module_from_spec(_spec4)
+_spec4.loader.exec_module(_trd)
 
 
 def translate(ctx):
@@ -46,6 +49,15 @@ def translate(ctx):
     except OSError as e:
         raise TieBroken("c13_attrs", f"source not readable: {e}")
     out = LEAN / "Gama" / "Gen" / "GkfAttrs.lean"
+    if not out.exists() or out.read_text() != txt:
+        out.write_text(txt)
+    try:
+        txt = _trd.generate(ctx.repo)
+    except _trd.DocError as e:
+        raise TieBroken("c13_doc", str(e))
+    except OSError as e:
+        raise TieBroken("c13_doc", f"source not readable: {e}")
+    out = LEAN / "Gama" / "Gen" / "GkfDoc.lean"
     if not out.exists() or out.read_text() != txt:
         out.write_text(txt)
 
@@ -627,6 +639,461 @@ def record_stream(ctx, corr, gdir):
                       "LocalNetwork::export_xml / GKFparser", "; ".join(d[:5]))
 
 
+# ---------------------------------------------------------------- whole documents: model (parseNet / exportNet) vs GKFparser + export_xml
+
+AXES = ["ne", "sw", "es", "wn", "en", "nw", "se", "ws"]
+ADJ = ["xy", "xyz", "z", "XY", "XYZ", "XYz", "xyZ", "Z"]
+
+
+def dnum(rng, lo, hi, nd=4):
+    return f"{rng.uniform(lo, hi):.{nd}f}"
+
+
+def gon2dms(g):
+    """a sexagesimal string deg2gon accepts"""
+    d = g * 0.9
+    deg = int(d)
+    m = int((d - deg) * 60)
+    sec = ((d - deg) * 60 - m) * 60
+    return f"{deg}-{m:02d}-{sec:07.4f}"
+
+
+def band_cov(rng, sig, band):
+    """packed upper band of D (I + 0.1 B) D : positive definite for band <= 3"""
+    n = len(sig)
+    out = []
+    for i in range(n):
+        for j in range(i, min(n, i + band + 1)):
+            out.append(sig[i] * sig[j] * (1.0 if i == j else rng.choice([0.1, -0.1, 0.05])))
+    return out
+
+
+def gen_doc(rng):
+    """a complete input document as (description for the statistics, XML text); nothing is adjusted: any mix the parser accepts"""
+    esc = gen_net.xml_escape_attr
+    ids = ["A", "B", "C7", "Dé", "E", "F 1"][:rng.randint(3, 6)]
+    st = {"axes": rng.choice(AXES + [None]), "angles": rng.choice(["left-handed", "right-handed", None])}
+    out = ['<?xml version="1.0" ?>', '<gama-local xmlns="http://www.gnu.org/software/gama/gama-local">']
+    na = []
+    if st["axes"]:
+        na.append(f'axes-xy="{st["axes"]}"')
+    if st["angles"]:
+        na.append(f'angles="{st["angles"]}"')
+    if rng.random() < 0.3:
+        na.append(f'epoch="{rng.choice(["2021.5", "1999.25", "0"])}"')
+    rng.shuffle(na)
+    out.append("<network " + " ".join(na) + ">")
+    if rng.random() < 0.5:
+        out.append("<description>" + rng.choice(["plain", "R&amp;D", "a &lt; b"]) + "</description>")
+    st["out360"] = False
+    pa = []
+    if rng.random() < 0.8:
+        for nm, vals in (("sigma-apr", ["10", "1", "2.5", "7.123456789"]), ("conf-pr", ["0.95", "0.99", "0.5"]), ("tol-abs", ["1000", "500", "12.5"]),
+                         ("sigma-act", ["apriori", "aposteriori"]), ("algorithm", ["gso", "svd", "cholesky", "envelope", "qr"]),
+                         ("cov-band", ["-1", "0", "3", "-7"]), ("latitude", ["50", "48.5", "-33.25"]), ("ellipsoid", ["wgs84", "bessel", "grs80"]),
+                         ("language", ["en"]), ("encoding", ["utf-8"])):
+            if rng.random() < 0.45:
+                pa.append(f'{nm}="{rng.choice(vals)}"')
+        if rng.random() < 0.5:
+            v = rng.choice(["400", "360", "360"])
+            st["out360"] = v == "360"
+            pa.append(f'{rng.choice(["angles", "angular"])}="{v}"')
+        rng.shuffle(pa)
+        out.append("<parameters " + " ".join(pa) + " />")
+    st["params"] = len(pa)
+    po = []
+    if rng.random() < 0.3:
+        po = [f'{nm}="{v}"' for nm, v in (("direction-stdev", "10"), ("angle-stdev", "12"), ("distance-stdev", "5 3 1"),
+                                            ("zenith-angle-stdev", "9"), ("azimuth-stdev", "11")) if rng.random() < 0.6]
+    out.append("<points-observations " + " ".join(po) + ">")
+    pts = list(ids)
+    rng.shuffle(pts)
+    st["status"] = []
+    for i in pts:
+        a = [f'id="{esc(i)}"']
+        dims = rng.choice(["xy", "xyz", "z", "xy", "xyz", "none"])
+        if "xy" in dims:
+            a += [f'x="{dnum(rng, -5000, 5000)}"', f'y="{dnum(rng, -5000, 5000)}"']
+        if "z" in dims:
+            a.append(f'z="{dnum(rng, 100, 900, 3)}"')
+        r = rng.random()
+        code = ""
+        if r < 0.35:
+            c = rng.choice(ADJ); a.append(f'fix="{c}"'); code = "fix:" + c
+        elif r < 0.8:
+            c = rng.choice(ADJ); a.append(f'adj="{c}"'); code = "adj:" + c
+        elif r < 0.9:
+            c, c2 = rng.choice(ADJ), rng.choice(ADJ); a += [f'adj="{c}"', f'fix="{c2}"']; code = f"adj:{c}+fix:{c2}"
+        st["status"].append(code or "unused")
+        rng.shuffle(a)
+        out.append("<point " + " ".join(a) + " />")
+    st["clusters"] = []
+    st["deg_in"] = 0
+    for _ in range(rng.randint(0, 4)):
+        kind = rng.choice(["obs", "obs", "hd", "co", "ve"])
+        if kind == "obs":
+            station, els, _dhs = gen_record_case(rng)
+            ca = []
+            if rng.random() < 0.85:
+                ca.append(f'from="{esc(station)}"')
+            else:
+                els = [(k, a if any(n == "from" for n, _ in a) else a + [("from", station)]) for k, a in els if k != "direction"]
+                if not els:
+                    continue
+            if rng.random() < 0.2:
+                ca.append(f'from_dh="{rng.choice(["1.5", "0", "1.25"])}"')
+            if rng.random() < 0.15:
+                ca.append('orientation="12.5"')
+            sig = []
+            lines = []
+            for k, a in els:
+                a = list(a)
+                sd = float(dict(a)["stdev"])
+                if k in ("direction", "angle", "z-angle", "azimuth") and rng.random() < 0.3:
+                    a = [(n, gon2dms(float(v)) if n == "val" else v) for n, v in a]
+                    st["deg_in"] += 1
+                sig.append(sd)
+                lines.append(f"<{k} " + " ".join(f'{n}="{esc(v)}"' for n, v in a) + " />")
+            out.append("<obs " + " ".join(ca) + ">")
+            out += lines
+            band = None
+            if rng.random() < 0.4:
+                band = rng.randint(0, min(3, len(sig) - 1))
+                out.append(f'<cov-mat dim="{len(sig)}" band="{band}">' + " ".join(repr(x) for x in band_cov(rng, sig, band)) + "</cov-mat>")
+            out.append("</obs>")
+            st["clusters"].append(("obs", band))
+        elif kind == "hd":
+            _s, _e, dhs = gen_record_case(rng)
+            if not dhs:
+                continue
+            out.append("<height-differences>")
+            sig = []
+            for k, a in dhs:
+                d = dict(a)
+                sig.append(float(d["stdev"]) if "stdev" in d else 10.0 * float(d["dist"]) ** 0.5)
+                out.append(f"<{k} " + " ".join(f'{n}="{esc(v)}"' for n, v in a) + " />")
+            band = None
+            if rng.random() < 0.3 and all("stdev" in dict(a) for _, a in dhs):
+                band = rng.randint(0, min(2, len(sig) - 1))
+                out.append(f'<cov-mat dim="{len(sig)}" band="{band}">' + " ".join(repr(x) for x in band_cov(rng, sig, band)) + "</cov-mat>")
+            out.append("</height-differences>")
+            st["clusters"].append(("hd", band))
+        elif kind == "co":
+            ca = f' extern="{rng.choice(["gps 1", "a&amp;b"])}"' if rng.random() < 0.3 else ""
+            out.append(f"<coordinates{ca}>")
+            sig = []
+            for i in rng.sample(ids, rng.randint(1, min(3, len(ids)))):
+                dims = rng.choice(["xy", "xyz", "z"])
+                a = [f'id="{esc(i)}"']
+                if "xy" in dims:
+                    a += [f'x="{dnum(rng, -5000, 5000)}"', f'y="{dnum(rng, -5000, 5000)}"']
+                    sig += [0.01, 0.02]
+                if "z" in dims:
+                    a.append(f'z="{dnum(rng, 100, 900, 3)}"')
+                    sig.append(0.03)
+                if rng.random() < 0.1:
+                    a.append(f'adj="{rng.choice(ADJ)}"')
+                out.append("<point " + " ".join(a) + " />")
+            band = rng.randint(0, min(3, len(sig) - 1))
+            out.append(f'<cov-mat dim="{len(sig)}" band="{band}">' + " ".join(repr(x) for x in band_cov(rng, sig, band)) + "</cov-mat>")
+            out.append("</coordinates>")
+            st["clusters"].append(("co", band))
+        else:
+            out.append("<vectors>")
+            n = rng.randint(1, 3)
+            for _ in range(n):
+                f, t = rng.sample(ids, 2)
+                a = [f'from="{esc(f)}"', f'to="{esc(t)}"', f'dx="{dnum(rng, -900, 900)}"', f'dy="{dnum(rng, -900, 900)}"', f'dz="{dnum(rng, -90, 90)}"']
+                if rng.random() < 0.2:
+                    a += ['from_dh="1.5"', 'to_dh="1.75"']
+                if rng.random() < 0.3:
+                    a.append('extern="v 1"')
+                rng.shuffle(a)
+                out.append("<vec " + " ".join(a) + " />")
+            sig = [0.01, 0.02, 0.03] * n
+            band = rng.randint(0, min(3, len(sig) - 1))
+            out.append(f'<cov-mat dim="{len(sig)}" band="{band}">' + " ".join(repr(x) for x in band_cov(rng, sig, band)) + "</cov-mat>")
+            out.append("</vectors>")
+            st["clusters"].append(("ve", band))
+    out += ["</points-observations>", "</network>", "</gama-local>", ""]
+    return st, "\n".join(out)
+
+
+NUM8 = {"sigma-apr", "conf-pr", "tol-abs", "from_dh", "to_dh", "bs_dh", "fs_dh"}
+NUMS = NUM8 | {"epoch", "latitude", "cov-band", "x", "y", "z", "val", "stdev", "dist", "dx", "dy", "dz", "orientation"}
+
+
+def hexfloat_tok(v):
+    """numeric attribute text as the driver reads it: hex double, `D<hex double of gon>` for a sexagesimal string"""
+    g = dms2gon(v)
+    if g is not None:
+        return "D" + float2hex(g)
+    try:
+        return float2hex(float(v))
+    except ValueError:
+        return v
+
+
+def kv(a, numeric=NUMS):
+    return " ".join(f"{n}={hexs(hexfloat_tok(v) if (n in numeric and n != 'cov-band') else v)}" for n, v in a)
+
+
+def cov_tok(c):
+    if c is None:
+        return ""
+    return " ; cov " + c.get("dim") + " " + c.get("band") + "".join(" " + hexs(float2hex(float(x))) for x in (c.text or "").split())
+
+
+def doc_tokens(text):
+    """operands of the driver's `net` line from the XML text (attribute order as written)"""
+    root = ET.fromstring(text.encode("utf-8"))
+    secs = []
+    net = next(e for e in root.iter() if local(e.tag) == "network")
+    secs.append("H " + kv(list(net.attrib.items())))
+    for e in net:
+        t = local(e.tag)
+        if t == "description":
+            secs.append("T " + hexs(e.text or ""))
+        elif t == "parameters":
+            secs.append("P " + kv(list(e.attrib.items())))
+        elif t == "points-observations":
+            secs.append("O " + kv(list(e.attrib.items()), numeric=set()))
+            for c in e:
+                ct = local(c.tag)
+                cov = next((o for o in c if local(o.tag) == "cov-mat"), None)
+                kids = [o for o in c if local(o.tag) != "cov-mat"]
+                if ct == "point":
+                    secs.append("pt " + kv(list(c.attrib.items())))
+                elif ct == "obs":
+                    secs.append("obs " + kv(list(c.attrib.items())) + "".join(" ; el " + local(o.tag) + " " + kv(list(o.attrib.items())) for o in kids) + cov_tok(cov))
+                elif ct == "height-differences":
+                    secs.append("hd" + "".join(" ; el " + local(o.tag) + " " + kv(list(o.attrib.items())) for o in kids) + cov_tok(cov))
+                elif ct == "coordinates":
+                    secs.append("co " + kv(list(c.attrib.items())) + "".join(" ; p " + kv(list(o.attrib.items())) for o in kids) + cov_tok(cov))
+                elif ct == "vectors":
+                    secs.append("ve" + "".join(" ; vec " + kv(list(o.attrib.items())) for o in kids) + cov_tok(cov))
+    return " | ".join(secs)
+
+
+def unhexs(h):
+    return bytes.fromhex(h).decode("utf-8") if h != "-" else ""
+
+
+def canon_real(text):
+    """the exported XML as a list of records (tag, [(name, value)], elements, cov)"""
+    root = ET.fromstring(text.encode("utf-8"))
+    recs = []
+    net = next(e for e in root.iter() if local(e.tag) == "network")
+    recs.append(("H", list(net.attrib.items()), [], None))
+    for e in net:
+        t = local(e.tag)
+        if t == "description":
+            recs.append(("T", [("text", e.text or "")], [], None))
+        elif t == "parameters":
+            recs.append(("P", list(e.attrib.items()), [], None))
+        elif t == "points-observations":
+            for c in e:
+                ct = local(c.tag)
+                covx = next((o for o in c if local(o.tag) == "cov-mat"), None)
+                cov = None if covx is None else (int(covx.get("dim")), int(covx.get("band")), [float(x) for x in (covx.text or "").split()])
+                kids = [(local(o.tag), list(o.attrib.items())) for o in c if local(o.tag) != "cov-mat"]
+                tag = {"point": "pt", "obs": "obs", "height-differences": "hd", "coordinates": "co", "vectors": "ve"}[ct]
+                recs.append((tag, list(c.attrib.items()), kids, cov))
+    return recs
+
+
+def canon_model(lines):
+    recs = []
+    for l in lines:
+        groups = [g.split() for g in l.split(" ; ")]
+        head = groups[0]
+        if not head:
+            continue
+        tag = head[0]
+        if tag == "T":
+            if len(head) > 1 and unhexs(head[1]):
+                recs.append(("T", [("text", unhexs(head[1]))], [], None))
+            continue
+        attrs = [(t.split("=")[0], unhexs(t.split("=")[1])) for t in head[1:]]
+        kids, cov = [], None
+        for g in groups[1:]:
+            if g[0] == "cov":
+                cov = (int(g[1]), int(g[2]), [hex2float(unhexs(x)) for x in g[3:]])
+            elif g[0] == "el":
+                kids.append((g[1], [(t.split("=")[0], unhexs(t.split("=")[1])) for t in g[2:]]))
+            else:
+                kids.append(({"p": "point", "vec": "vec"}[g[0]], [(t.split("=")[0], unhexs(t.split("=")[1])) for t in g[1:]]))
+        recs.append((tag, attrs, kids, cov))
+    return recs
+
+
+def num_of(v):
+    """number behind a real (decimal / sexagesimal) or model (hex / D-hex) attribute text"""
+    v = v.strip()
+    if v.startswith("D0x"):
+        return hex2float(v[1:]), True
+    if v.startswith("0x"):
+        return hex2float(v), False
+    g = dms2gon(v)
+    if g is not None:
+        return g, True
+    return float(v), False
+
+
+def attrs_equal(aa, ab, where):
+    if [n for n, _ in aa] != [n for n, _ in ab]:
+        return f"{where}: attributes {[n for n, _ in aa]} vs {[n for n, _ in ab]}"
+    for (n, va), (_, vb) in zip(aa, ab):
+        if n in NUMS:
+            try:
+                (fa, da), (fb, db) = num_of(va), num_of(vb)
+            except ValueError:
+                return f"{where}: {n} {va!r} vs {vb!r}"
+            if da != db:
+                return f"{where}: {n} sexagesimal on one side only: {va!r} vs {vb!r}"
+            tol = 5e-8 if da else (2e-8 * max(abs(fa), abs(fb)) if n in NUM8 else 1e-12 * max(abs(fa), abs(fb))) + 1e-300
+            if abs(fa - fb) > tol:
+                return f"{where}: {n} {va} vs {vb}"
+        elif N.pid_norm(va) != N.pid_norm(vb):
+            return f"{where}: {n} {va!r} vs {vb!r}"
+    return None
+
+
+def flat_coords(kids):
+    out = []
+    for _, a in kids:
+        d = dict(a)
+        for k in ("x", "y", "z"):
+            if k in d:
+                out.append((N.pid_norm(d.get("id", "")), k, d[k]))
+    return out
+
+
+def docs_equal(ra, rb):
+    """records of the real export vs records of the model's export; points compared as a set (PointData is sorted, the model keeps
+    insertion order), coordinates clusters by their observation lists (export_xml merges adjacent x y / z of one id)"""
+    pa = sorted((r for r in ra if r[0] == "pt"), key=lambda r: N.pid_norm(dict(r[1]).get("id", "")))
+    pb = sorted((r for r in rb if r[0] == "pt"), key=lambda r: N.pid_norm(dict(r[1]).get("id", "")))
+    oa = [r for r in ra if r[0] != "pt"]
+    ob = [r for r in rb if r[0] != "pt"]
+    if len(pa) != len(pb):
+        return f"{len(pa)} vs {len(pb)} points: {[dict(r[1]).get('id') for r in pa]} vs {[dict(r[1]).get('id') for r in pb]}"
+    if [r[0] for r in oa] != [r[0] for r in ob]:
+        return f"records {[r[0] for r in oa]} vs {[r[0] for r in ob]}"
+    for x, y in zip(pa + oa, pb + ob):
+        why = attrs_equal(x[1], y[1], x[0])
+        if why:
+            return why
+        if x[0] == "co":
+            fa, fb = flat_coords(x[2]), flat_coords(y[2])
+            if [(i, k) for i, k, _ in fa] != [(i, k) for i, k, _ in fb]:
+                return f"co: observations {[(i, k) for i, k, _ in fa]} vs {[(i, k) for i, k, _ in fb]}"
+            for (i, k, va), (_, _, vb) in zip(fa, fb):
+                if abs(num_of(va)[0] - num_of(vb)[0]) > 1e-12 * max(abs(num_of(va)[0]), 1e-300):
+                    return f"co: {k} of {i} {va} vs {vb}"
+        else:
+            if len(x[2]) != len(y[2]):
+                return f"{x[0]}: {len(x[2])} vs {len(y[2])} elements"
+            for (ta, aa), (tb, ab) in zip(x[2], y[2]):
+                if ta != tb:
+                    return f"{x[0]}: element {ta} vs {tb}"
+                why = attrs_equal(aa, ab, f"{x[0]}/{ta}")
+                if why:
+                    return why
+        ca, cb = x[3], y[3]
+        if (ca is None) != (cb is None):
+            return f"{x[0]}: cov-mat present on one side only"
+        if ca is not None:
+            if ca[0] != cb[0] or ca[1] != cb[1] or len(ca[2]) != len(cb[2]):
+                return f"{x[0]}: cov-mat dim/band/len {ca[0]}/{ca[1]}/{len(ca[2])} vs {cb[0]}/{cb[1]}/{len(cb[2])}"
+            for k, (u, v) in enumerate(zip(ca[2], cb[2])):
+                if abs(u - v) > 1e-12 * max(abs(u), abs(v)) + 1e-300:
+                    return f"{x[0]}: cov-mat element {k}: {u} vs {v}"
+    return None
+
+
+def doc_stream(ctx, corr, exe):
+    metas, cases = [], []
+    for _ in range(ctx.size(400, 8000)):
+        st, doc = gen_doc(ctx.rng)
+        metas.append((st, doc))
+        cases.append([f"net {hexs(doc)} {doc_tokens(doc)}"])
+    impl, crashes = run_cases(exe, cases)
+    model, _ = run_cases(ctx.driver("drv_export"), cases)
+    second, sidx = [], []
+    for i, (st, doc) in enumerate(metas):
+        key = ("doc", st["axes"], st["angles"], tuple(st["clusters"]), tuple(st["status"]), st["out360"], st["params"])
+        nontrivial = bool(st["clusters"]) or any(x != "unused" for x in st["status"])
+        corr.case(key=(key + (i,)) if nontrivial else None, sample={"doc": doc[:900]} if i < 1 else None)
+        corr.count("doc_cases")
+        corr.count("doc_axes_" + str(st["axes"]))
+        corr.count("doc_angles_" + str(st["angles"]))
+        for k, b in st["clusters"]:
+            corr.count("doc_cluster_" + k)
+            if b:
+                corr.count("doc_cluster_with_band")
+        for x in st["status"]:
+            corr.count("doc_status_" + ("constrained" if any(ch.isupper() for ch in x.split(":")[-1]) and x.startswith("adj") and "+" not in x
+                                        else x.split(":")[0] if "+" not in x else "adj+fix"))
+        if st["deg_in"]:
+            corr.count("doc_sexagesimal_input")
+        if st["out360"]:
+            corr.count("doc_output_in_degrees")
+        payload = {"stream": "doc", "gkf": doc}
+        if i in crashes:
+            corr.fail("GKFparser / export_xml crashed on a generated document", payload, "LocalNetwork::export_xml", crashes[i][1])
+            continue
+        if not impl[i] or not impl[i][0].startswith("ok "):
+            why = unhexs(impl[i][0].split()[2]) if impl[i] and len(impl[i][0].split()) > 2 else str(impl[i][:1])
+            if model[i] and model[i][0].startswith("throw"):
+                corr.count("doc_refused_by_both")
+            else:
+                corr.disagree("doc", [doc[-1500:]], impl[i][:1] + [why[:200]], model[i][:6], "the parser refuses a document the model accepts")
+            continue
+        if not model[i] or model[i][0].startswith("throw") or model[i][0] == "bad-op":
+            corr.disagree("doc", [doc[-1500:]], ["accepted"], model[i][:2], "the model refuses a document the parser accepts")
+            continue
+        exported = unhexs(impl[i][0].split()[1])
+        try:
+            ra = canon_real(exported)
+        except ET.ParseError as e:
+            corr.fail("the exported document is not well-formed", dict(payload, exported=exported[:2000]), "LocalNetwork::export_xml", str(e))
+            continue
+        why = docs_equal(ra, canon_model(model[i][:-1]))
+        if why:
+            corr.disagree("doc", [doc[-1800:]], [exported[-1500:]], model[i][:14], why)
+        if model[i][-1] != "again same":
+            # the model regenerated from a tree whose writer and parser disagree (F26, F27) reproduces that; the failing input
+            # comes from the implementation's own second round below
+            corr.count("doc_model_export_not_a_fixed_point")
+        corr.count("doc_compared")
+        second.append([f"net {hexs(exported)} {doc_tokens(exported)}"])
+        sidx.append((i, exported, ra))
+    # second round: the real export as input of both sides (the model's parse of the real export), and the
+    # implementation's own fixed point: export(parse(e1)) describes the same document as e1
+    impl2, crashes2 = run_cases(exe, second)
+    model2, _ = run_cases(ctx.driver("drv_export"), second)
+    for k, (i, exported, ra) in enumerate(sidx):
+        payload = {"stream": "doc", "gkf": metas[i][1], "exported": exported[:3000]}
+        if k in crashes2 or not impl2[k] or not impl2[k][0].startswith("ok "):
+            corr.fail("the exported document is not an acceptable input", payload, "LocalNetwork::export_xml / GKFparser",
+                      crashes2[k][1] if k in crashes2 else (unhexs(impl2[k][0].split()[2]) if impl2[k] and len(impl2[k][0].split()) > 2 else ""))
+            continue
+        e2 = unhexs(impl2[k][0].split()[1])
+        rb = canon_real(e2)
+        why = docs_equal(ra, rb)
+        if why:
+            corr.fail("exporting the exported document does not yield an equivalent document", dict(payload, diffs=[why]),
+                      "LocalNetwork::export_xml / GKFparser", why)
+        if not model2[k] or model2[k][0].startswith("throw") or model2[k][0] == "bad-op":
+            corr.disagree("doc", [exported[-1500:]], ["accepted"], model2[k][:2], "the model refuses a document written by export_xml")
+            continue
+        why = docs_equal(rb, canon_model(model2[k][:-1]))
+        if why:
+            corr.disagree("doc", [exported[-1800:]], [e2[-1500:]], model2[k][:14], "second round: " + why)
+        corr.count("doc_second_round_compared")
+
+
 def build(ctx):
     return ctx.build_gama(sanitize=ctx.thorough)
 
@@ -636,6 +1103,8 @@ def correspond(ctx, corr):
     wd = Path(tempfile.mkdtemp(prefix="c13-"))
     try:
         record_stream(ctx, corr, gdir)
+        objs = sorted(_glob.glob(str(gdir / "CMakeFiles" / "libgama.dir" / "**" / "*.o"), recursive=True))
+        doc_stream(ctx, corr, ctx.build_cpp("c13_export", [ctx.verif / "harness" / "c13_export.cpp"], libs=objs + ["-lexpat"]))
         cases = []
         corpus = ctx.verif / "corpus" / "C13"
         for f in sorted(corpus.glob("net-*.gkf")):
@@ -667,6 +1136,12 @@ def search(ctx, broken, corr):
 
 def classify(ctx, f):
     d = f.detail or ""
+    if f.replay.get("stream") == "doc":
+        if "P: latitude" in d:
+            return "F27"
+        if re.search(r"obs: cov-mat element", d) and re.search(r'(angles|angular)="360"', str(f.replay.get("gkf", ""))):
+            return "F26"
+        return None
     if "fs_dh of" in d and " differs" in d:
         return "F8"
     if "not well-formed" in f.what or ("not an acceptable input" in f.what and
@@ -688,6 +1163,22 @@ def replay(ctx, payload):
     f = payload.get("failure") or {}
     inp = f.get("input") or {}
     print(json.dumps({k: (v if k not in ("gkf", "exported") else v[:1200]) for k, v in inp.items()}, indent=1, ensure_ascii=False)[:4000])
+    if inp.get("stream") == "doc":
+        gdir = build(ctx)
+        objs = sorted(_glob.glob(str(gdir / "CMakeFiles" / "libgama.dir" / "**" / "*.o"), recursive=True))
+        exe = ctx.build_cpp("c13_export", [ctx.verif / "harness" / "c13_export.cpp"], libs=objs + ["-lexpat"])
+        out1, cr1 = run_cases(exe, [[f"net {hexs(inp['gkf'])}"]])
+        if 0 in cr1 or not out1[0] or not out1[0][0].startswith("ok "):
+            print("FAIL: the document is refused / crashes:", out1[0][:1], cr1.get(0))
+            return 1
+        e1 = unhexs(out1[0][0].split()[1])
+        out2, cr2 = run_cases(exe, [[f"net {hexs(e1)}"]])
+        if 0 in cr2 or not out2[0] or not out2[0][0].startswith("ok "):
+            print("FAIL: the exported document is refused:", out2[0][:1], cr2.get(0))
+            return 1
+        why = docs_equal(canon_real(e1), canon_real(unhexs(out2[0][0].split()[1])))
+        print("export 1 vs export 2:", why or "equivalent")
+        return 1 if why else 0
     if inp.get("stream") != "net":
         return 0
     gdir = build(ctx)
